@@ -179,6 +179,8 @@ pub struct Outcome {
     pub extra_signers: Vec<Vec<u8>>,
     /// some input was first registered with a Plutus witness and then re-registered as a key input
     pub superseded: bool,
+    /// (Plutus input, the reference input declared to carry its datum)
+    pub datum_refs: Vec<((Vec<u8>, u64), (Vec<u8>, u64))>,
     /// the caller supplied a datum as bytes in a spelling the library itself would not choose (kept verbatim)
     pub verbatim_datums: bool,
     /// the builder's inputs at the time calc_script_data_hash was called
@@ -201,6 +203,8 @@ pub struct Scn<'a> {
     pub extra_signers: Vec<Vec<u8>>,
     /// some input was first registered with a Plutus witness and then re-registered as a key input
     pub superseded: bool,
+    /// (Plutus input, the reference input declared to carry its datum)
+    pub datum_refs: Vec<((Vec<u8>, u64), (Vec<u8>, u64))>,
     /// the caller supplied a datum as bytes in a spelling the library itself would not choose (kept verbatim)
     pub verbatim_datums: bool,
 }
@@ -223,7 +227,7 @@ pub fn val_to_csl(v: &Val) -> Value {
 impl<'a> Scn<'a> {
     pub fn new(r: &'a mut Rng, ring: &'a KeyRing, f: Focus) -> Scn<'a> {
         let net = r.below(2) as u8;
-        Scn { r, ring, f, utxos: vec![], log: vec![], markers: vec![], next_marker: 1000, next_tx: 1, declared_refs: vec![], net, used_langs: vec![], panics: vec![], extra_signers: vec![], superseded: false, verbatim_datums: false }
+        Scn { r, ring, f, utxos: vec![], log: vec![], markers: vec![], next_marker: 1000, next_tx: 1, declared_refs: vec![], net, used_langs: vec![], panics: vec![], extra_signers: vec![], superseded: false, datum_refs: vec![], verbatim_datums: false }
     }
     fn p(&mut self, num: u64) -> bool {
         self.r.below(16) < num
@@ -1187,6 +1191,7 @@ pub fn run_scenario(r: &mut Rng, ring: &KeyRing, f: Focus) -> Option<Outcome> {
                         let di = s.new_utxo(&a2, v2);
                         s.utxos[di].inline_datum = true;
                         let dout = s.outpoint(di);
+                        s.datum_refs.push((o.clone(), dout.clone()));
                         PlutusWitness::new_with_ref(&src, &DatumSource::new_ref_input(&Scn::tx_input(&dout)), &red)
                     }
                 };
@@ -1453,6 +1458,7 @@ pub fn run_scenario(r: &mut Rng, ring: &KeyRing, f: Focus) -> Option<Outcome> {
         builder_before_balance: Some(tb_before),
         extra_signers: s.extra_signers,
         superseded: s.superseded,
+        datum_refs: s.datum_refs,
         verbatim_datums: s.verbatim_datums,
     })
 }
